@@ -1300,3 +1300,9 @@ pub enum JpegReconstructionStatus {
     /// JPEG bitstream reconstruction data is not found. Result may change with more data.
     NeedMoreData,
 }
+
+/// Verification hooks (`--cfg jxl_oxide_verif`): add-only access for the out-of-tree harness crate.
+#[cfg(jxl_oxide_verif)]
+pub mod verif {
+    pub use crate::fb::verif::*;
+}
